@@ -26,7 +26,10 @@ def showHdrs (hs : Headers) : String :=
 def parseSrc (s : String) : Option HdrSrc :=
   if s.startsWith "#" then (s.drop 1).toNat?.map HdrSrc.ref else (parseHdrs s).map HdrSrc.lit
 
-def parseReq (w : World) (s : String) : Option ParReq :=
+/-- `c@headers` or `c@headers!kind` (the opener fails after it got the request: the model of the
+request is the same, the id was assigned before) -/
+def parseReq (w : World) (s0 : String) : Option ParReq :=
+  let s := match s0.splitOn "!" with | a :: _ => a | [] => s0
   match s.splitOn "@" with
   | [c, h] => match c.toNat?, (parseSrc h).bind (·.read w) with
     | some c', some h' => some (c', h')
@@ -35,6 +38,15 @@ def parseReq (w : World) (s : String) : Option ParReq :=
 
 def parseThreads (w : World) (s : String) : Option (List (List ParReq)) :=
   (s.splitOn "|").mapM fun t => if t = "." then some [] else (t.splitOn "+").mapM (parseReq w)
+
+/-- `none` | `auth:<value>` | `set:<value>` | `polite:<value>` -/
+def parseAdapter (s : String) : Option (Option Adapter) :=
+  if s = "none" then some none else
+  match s.splitOn ":" with
+  | ["auth", v] => (parseCps v).map fun x => some (.auth x)
+  | ["set", v] => (parseCps v).map fun x => some (.setId x)
+  | ["polite", v] => (parseCps v).map fun x => some (.politeId x)
+  | _ => none
 
 def className (kind : String) : List Char :=
   if kind = "bauth" then "BAuthConn".toList
@@ -125,8 +137,8 @@ def handle (w : World) (line : String) : World × String :=
     match parseCps cp with
     | some cp' => let (w', k) := w.newImpl cp' (ids == "1"); (w', "ok " ++ toString k)
     | none => (w, "bad-op")
-  | ["wrap", c, kind, auth] =>
-    match c.toNat?, (if auth = "none" then some none else (parseCps auth).map some) with
+  | ["wrap", c, kind, ad] =>
+    match c.toNat?, parseAdapter ad with
     | some c', some a => match w.wrap g c' (className kind) a with
       | .ok (w', k) => (w', "ok " ++ toString k)
       | .error e => (w, "err " ++ e.name)
@@ -137,6 +149,12 @@ def handle (w : World) (line : String) : World × String :=
     | none => (w, "bad-op")
   | ["req", c, h] => doReq w c h "get"
   | ["req", c, h, method] => doReq w c h method
+  | ["req", c, h, method, fail] =>
+    -- the opener raises after it was handed the request: nothing of what the request did is undone
+    let (w', r) := doReq w c h method
+    let name := if fail = "url" then "URLError" else if fail = "http" then "HTTPError"
+      else if fail = "timeout" then "TimeoutError" else "RuntimeError"
+    (w', if r.startsWith "sent " then r ++ " raised " ++ name else r)
   | ["burst", c, n] =>
     match c.toNat?, n.toNat? with
     | some c', some n' => match burst w c' n' none none with
